@@ -118,7 +118,7 @@ func checkC15(e *Engine, r *Report) {
 			nHandlers++
 		}
 	}
-	r.MinInstances("NRI handler methods", nHandlers, 10)
+	r.MinInstances("NRI handler methods", nHandlers, 5)
 	for _, n := range []string{"resmgr.updateConfig", "resmgr.Stop", "resmgr.SendEvent"} {
 		if fn := r.Anchor(pkgRM, n); fn != nil {
 			entries = append(entries, fn)
@@ -274,7 +274,7 @@ func checkC15(e *Engine, r *Report) {
 			}
 		})
 	}
-	r.MinInstances("protected uses", nUses, 30)
+	r.MinInstances("protected uses", nUses, 15)
 
 	// ---- rule 2: no self-deadlock; locks are released ---------------------------
 	lockers := map[*ssa.Function]bool{}
@@ -287,7 +287,7 @@ func checkC15(e *Engine, r *Report) {
 			}
 		})
 	}
-	r.MinInstances("functions taking the resmgr lock", len(lockers), 8)
+	r.MinInstances("functions taking the resmgr lock", len(lockers), 4)
 	var lockerList []*ssa.Function
 	for f := range lockers {
 		lockerList = append(lockerList, f)
@@ -377,7 +377,7 @@ func checkC15(e *Engine, r *Report) {
 		sort.Strings(offs)
 		r.Check("R3:cache-callers", "R3 single entry", "cache.Cache methods are invoked only from the resource manager, the policy layer, the policies and the controllers",
 			"-", nil, len(offs) == 0, strings.Join(offs, "; "), true)
-		r.MinInstances("cache.Cache invoke sites", ncalls, 40)
+		r.MinInstances("cache.Cache invoke sites", ncalls, 20)
 	}
 	// spawned code must not touch shared state
 	{
@@ -436,7 +436,7 @@ func checkC15(e *Engine, r *Report) {
 					e.InstrPos(in), fn, hit == "", hit, true)
 			})
 		}
-		r.MinInstances("spawn sites (go / time.AfterFunc)", nsp, 3)
+		r.MinInstances("spawn sites (go / time.AfterFunc)", nsp, 2)
 	}
 
 	// ---- rule 4: publish before spawn ------------------------------------------------
